@@ -134,6 +134,7 @@ class CorruptSuite:
                         if not g.startswith("err") and g != exp:
                             wrong = "get(%s) returned %s instead of %s or an error" % (k.hex(), lib.trunc(g, 80), lib.trunc(exp, 80))
                             break
+                    wrong_get = wrong is not None
                     if not wrong and scan2 != final and not scan2.startswith("err"):
                         wrong = "the scan returned %s instead of %s or an error" % (lib.trunc(scan2, 200), lib.trunc(final, 200))
                     in_first_block = len(p) >= 9 and p[8] == "1"
@@ -144,7 +145,10 @@ class CorruptSuite:
                         # compaction (the merge produces nothing and the error of positioning the
                         # iterator is the only thing left to look at). Errors met later, while
                         # stepping, or next to other inputs are the known finding
-                        if not (level == "0" and (not openable or (in_first_block and alone))):
+                        # (a scan that shows older versions of the block's keys while point lookups
+                        # fail is the known finding as well: only point lookups count for the second
+                        # criterion)
+                        if not (level == "0" and (not openable or (in_first_block and alone and wrong_get))):
                             # KNOWN FINDING: block / lazily opened table errors are swallowed by the
                             # iterators a compaction merges
                             self.known_hits.append(("table-block-error-swallowed-by-iterators", cid, where))
